@@ -12,4 +12,5 @@ cp "$W/bin/verifcheck-plain" "$W/bin/verifcheck-race"; cp "$W/bin/verifcheck-pla
 PROPS=${*:-C01 C02 C03 C04 C05 C06 C07 C08 C09 C10 C11 C12 C13 C14 C15 C16 C17 C18 C19 C20}
 for P in $PROPS; do GOCOVERDIR="$W/data" VERIF_DIR="$W/vd" "$W/bin/verifcheck-plain" run $P quick "$W/bin" 2>&1 | tail -1; done
 (cd harness && $GO tool covdata textfmt -i="$W/data" -o "$W/cover.txt" && $GO tool cover -func="$W/cover.txt" | grep -v "verifharness\|_test.go" > "$W/func.txt")
+[ -n "${COV_OUT:-}" ] && mkdir -p "$COV_OUT" && cp "$W/func.txt" "$W/cover.txt" "$COV_OUT/"
 tail -1 "$W/func.txt"; echo "functions never entered:"; awk '$3=="0.0%"' "$W/func.txt"
